@@ -31,6 +31,11 @@ def units(tier, seed):
         if n.split(":")[0] in ("S1", "S2", "S3", "S5", "S9", "S11", "S15", "S18") or (n.startswith("F1:") and "," not in n):
             for dec in ("maxdepth", "pigrow"):
                 us.append({"kind": "tree-create", "spec": spec, "decider": dec, "depth_off": 2, "xd": True, "max_execs": 400 if tier == "quick" else 5000})
+    # the dependent-types context grammar (lists of names threaded through the tree by hand-written refinements)
+    for dec in ("maxdepth", "pigrow"):
+        for off in (1, 2, 3):
+            us.append({"kind": "tree-create", "spec": G.CONTEXT_SPEC, "decider": dec, "depth_off": off, "max_execs": 800 if tier == "quick" else 8000})
+    us.append({"kind": "e2", "spec": G.CONTEXT_SPEC, "rep": "tree", "depth_off": 2, "K": 2, "max_states": 25, "max_execs_per_op": 60})
     return us
 
 
@@ -44,6 +49,40 @@ def nodes_of(v, out, path="$"):
     out.append((path, v))
     for n in R._field_names(type(v)):
         nodes_of(getattr(v, n), out, f"{path}.{n}")
+
+
+def lists_of(v, out, path="$"):
+    """Every list container of a program (they carry labels of their own, which their owners reuse)."""
+    if isinstance(v, list):
+        out.append((path, v))
+        for i, x in enumerate(v):
+            lists_of(x, out, f"{path}[{i}]")
+        return
+    if isinstance(v, tuple):
+        for i, x in enumerate(v):
+            lists_of(x, out, f"{path}({i})")
+        return
+    if type(v).__module__ == "builtins":
+        return
+    for n in R._field_names(type(v)):
+        lists_of(getattr(v, n), out, f"{path}.{n}")
+
+
+def container_labels(lst, g):
+    """Reference labels of a list container (tree-depth mode): transparent, it sums its elements."""
+    nodes, dist, weighted = 0, 0, 0
+    for c in lst:
+        if isinstance(c, (list, tuple)):
+            n, d, w = container_labels(c, g)
+            nodes += n
+            dist = max(dist, d)
+            weighted += w
+        else:
+            n, d, w, _ = R.ref_labels(c, g, False)
+            nodes += n
+            dist = max(dist, d + 1)
+            weighted += w
+    return nodes, dist, weighted
 
 
 def owns_list(v) -> bool:
@@ -71,6 +110,22 @@ def oracle(ctx, ev, r, tm):
         return
     if ctx.unit.get("xd"):
         return oracle_expansion(ctx, ev, r, tm)
+    lists: list = []
+    lists_of(ev.result, lists)
+    for path, lst in lists:
+        if not hasattr(lst, "gengy_labeled"):
+            continue
+        r.count("labelled_lists_checked")
+        want = container_labels(lst, ctx.g)
+        got = (getattr(lst, "gengy_nodes", None), getattr(lst, "gengy_distance_to_term", None), getattr(lst, "gengy_weighted_nodes", None))
+        ttw = getattr(lst, "gengy_types_this_way", {}) or {}
+        self_ok = any(x is lst for x in ttw.get(type(lst), []))
+        if got != want or not self_ok:
+            r.add_violation(Violation(PROP, P.site_of(ev), "label:list-container", {"op": ev.op, "self_indexed": self_ok},
+                                      {"unit": P.clean_unit(ctx.unit), "choices": list(ev.choices), "path": path, "program": R.show(tm)[:300]},
+                                      f"{ctx.spec['name']}: list {R.show(R.term(lst))[:60]} at {path}: (nodes, distance, weighted) = {got}, its elements give "
+                                      f"{want}; indexes itself: {self_ok}"))
+            break
     nodes: list = []
     nodes_of(ev.result, nodes)
     parent_ids = set()
